@@ -751,13 +751,18 @@ def let(e, min_terms=2):
             return e  # c * atom: nothing to gain
         if not m:
             return e
+    # canonical up to a rational factor: let(c*P) = c*let(P) with P primitive, leading coefficient > 0
+    c = content(e)
+    if c != 1:
+        e = e * E.const(1 / c)
     k = e.key()
     a = _LETS.get(k)
     if a is None:
         a = Atom("let", len(_LETS))
         a.defn = e
         _LETS[k] = a
-    return E.atom(a)
+    r = E.atom(a)
+    return r if c == 1 else r * E.const(c)
 
 
 def _has_compound(e):
@@ -814,6 +819,7 @@ def subst(e, mapping, _memo=None):
     memo = {} if _memo is None else _memo
     tg = set(mapping)
     out = ZERO
+    _tick(10 * len(e.t) + 10)
     for m, c in e.t.items():
         term = E.const(c)
         keep = []
@@ -964,6 +970,7 @@ def _clear_need(e):
 
 def _expand_with(e, need):
     out = ZERO
+    _tick(10 * len(e.t) + 10)
     for m, c in e.t.items():
         term = E.const(c)
         d = dict(m)
@@ -1028,11 +1035,16 @@ def derive(e, datom, memo=None):
     symbols) to e.  Chain rules for compound atoms; let atoms via their definitions (memoised)."""
     memo = {} if memo is None else memo
     out = ZERO
+    _tick(5 * len(e.t) + 5)
     for m, c in e.t.items():
         for i, (a, x) in enumerate(m):
             da = _datom(a, datom, memo)
-            if not isinstance(x, int) and atoms_of(x, deep=True) & _support(datom):
-                raise AlgError("derivative of a symbolic exponent is not modelled")
+            if not isinstance(x, int):
+                dx = derive(x, datom, memo)
+                if dx.t:
+                    if a.kind != "euler":
+                        raise AlgError("derivative of a symbolic exponent is only modelled for exp()")
+                    out = out + E({m: c}) * dx  # d(e**x) = e**x * dx
             if not da.t:
                 continue
             rest = E({m[:i] + m[i + 1 :]: c})
@@ -1045,6 +1057,36 @@ def derive(e, datom, memo=None):
                     pw = _reduce(pw)
                 out = out + rest * lift(x) * pw * da
     return out
+
+
+def stage_derivation(outputs, datom, memo, budget=400_000):
+    """Process the let atoms reachable from `outputs` in creation (topological) order: compute D(let) with
+    the chain rule and, where it vanishes (decided exactly, numerically pre-screened), record D(let) = 0 so
+    that later levels never see the expanded form.  Returns (n_lets, n_invariant)."""
+    acc = set()
+    for o in outputs:
+        atoms_of(lift(o), True, acc)
+    lets = sorted((a for a in acc if a.kind == "let"), key=lambda a: a.id)
+    n_inv = 0
+    for a in lets:
+        d = _datom(a, datom, memo)
+        if not d.t:
+            n_inv += 1
+            continue
+        vals = [evalf(d, seed=s) for s in (1, 2)]
+        if any(v == v and abs(v) > 1e-7 for v in vals):
+            continue
+        saved = list(_WORK)
+        set_budget(budget)
+        try:
+            if is_zero(d):
+                memo[a] = ZERO
+                n_inv += 1
+        except Budget:
+            pass
+        finally:
+            _WORK[0], _WORK[1] = saved[0] + _WORK[0], saved[1]
+    return len(lets), n_inv
 
 
 def _support(datom):
@@ -1086,6 +1128,20 @@ def _datom(a, datom, memo):
             y, x = a.args
             dy, dx = derive(y, datom, memo), derive(x, datom, memo)
             r = (x * dy - y * dx) / (x * x + y * y) if (dy.t or dx.t) else ZERO
+        elif k == "fn:select":
+            c_, x, y = a.args
+            dx, dy = derive(x, datom, memo), derive(y, datom, memo)
+            r = Fn("select", c_, dx, dy) if (dx.t or dy.t) and dx != dy else dx
+        elif k == "fn:pow":
+            b, ex = a.args
+            db = derive(b, datom, memo)
+            if derive(ex, datom, memo).t:
+                raise AlgError("derivative of pow with varying exponent")
+            r = ex * (b ** (ex - 1)) * db if db.t else ZERO
+        elif k == "fn:sqrt":
+            u = a.args[0]
+            du = derive(u, datom, memo)
+            r = du * E({((a, -1),): Fr(1, 2)}) if du.t else ZERO
         elif k == "fn:arccos":
             u = a.args[0]
             du = derive(u, datom, memo)
@@ -1189,6 +1245,142 @@ def evalf(e, env=None, seed=0):
                     return float("nan")
             s += p
         return s
+
+    return val(lift(e))
+
+
+def decide(a, b, budget=1_000_000):
+    """Three-valued identity decision.
+    1. structural equality of the normal forms (no unfolding)            -> ("equal", None)
+    2. numeric witnesses separate the two forms at every trial point     -> ("differ", witness)
+    3. otherwise unfold let atoms / clear denominators under a budget    -> "equal" or ("unknown", reason)
+    """
+    if isinstance(a, Inf) or isinstance(b, Inf):
+        return ("equal", None) if a is b else ("differ", {"lhs": repr(a), "rhs": repr(b)})
+    a, b = lift(a), lift(b)
+    d = a - b
+    if not d.t:
+        return "equal", None
+    seps = []
+    onesided = []
+    for s in (1, 2, 3):
+        va, vb = evalf(a, seed=s), evalf(b, seed=s)
+        if (va != va) != (vb != vb):
+            onesided.append({"seed": s, "lhs": va, "rhs": vb, "note": "defined on one side only"})
+        if va != va or vb != vb or abs(va) == float("inf") or abs(vb) == float("inf"):
+            continue
+        scale = max(1.0, abs(va), abs(vb))
+        seps.append((abs(va - vb) > 1e-6 * scale, {"seed": s, "lhs": va, "rhs": vb}))
+    if seps and all(x for x, _ in seps):
+        return "differ", seps[0][1]
+    if len(onesided) >= 2 and not any(not x for x, _ in seps):
+        return "differ", onesided[0]
+    saved = list(_WORK)
+    set_budget(budget)
+    try:
+        if is_zero(d):
+            return "equal", None
+    except Budget as ex:
+        return "unknown", str(ex)
+    finally:
+        _WORK[0], _WORK[1] = saved[0] + _WORK[0], saved[1]
+    if seps and any(x for x, _ in seps):
+        return "differ", [w for x, w in seps if x][0]
+    return "unknown", "normal forms differ after unfolding but no numeric witness separates them"
+
+
+def evald(e, datom, seed=0):
+    """Numeric forward-mode evaluation of (e, D(e)) at a pseudo-random point, for the derivation D given
+    by datom.  Linear in the size of the let-DAG; used to screen Lie-derivative identities before the
+    exact symbolic decision."""
+    memo = {}
+
+    def plain(x):
+        return evalf(x, env=base, seed=seed)
+
+    base = {}
+
+    def atom(a):
+        r = memo.get(a)
+        if r is not None:
+            return r
+        k = a.kind
+        if k in ("sym", "psym", "pc", "euler"):
+            v = evalf(E.atom(a), seed=seed)
+            d = evalf(lift(datom[a]), seed=seed) if a in datom else 0.0
+        elif k == "let":
+            v, d = val(a.defn)
+        elif k == "poly":
+            v, d = val(a.args[0])
+        elif k in ("root", "fn:sqrt"):
+            x, dx = val(a.args[0])
+            v = math.sqrt(x) if x >= 0 else float("nan")
+            d = dx / (2 * v) if v else float("nan")
+        elif k == "abs":
+            inner = a.args[0]
+            x, dx = atom(inner) if isinstance(inner, Atom) else val(inner)
+            v, d = abs(x), (dx if x >= 0 else -dx)
+        elif k == "fn:sin":
+            x, dx = val(a.args[0])
+            v, d = math.sin(x), math.cos(x) * dx
+        elif k == "fn:cos":
+            x, dx = val(a.args[0])
+            v, d = math.cos(x), -math.sin(x) * dx
+        elif k == "fn:arccos":
+            x, dx = val(a.args[0])
+            v = math.acos(x) if -1 <= x <= 1 else float("nan")
+            d = -dx / math.sqrt(1 - x * x) if -1 < x < 1 else float("nan")
+        elif k == "fn:arctan2":
+            (y, dy), (x, dx) = val(a.args[0]), val(a.args[1])
+            v, d = math.atan2(y, x), (x * dy - y * dx) / (x * x + y * y)
+        elif k == "fn:pow":
+            (b, db), (x, dx) = val(a.args[0]), val(a.args[1])
+            try:
+                v = b ** x
+                d = x * b ** (x - 1) * db + (v * math.log(b) * dx if dx else 0.0)
+                if isinstance(v, complex) or isinstance(d, complex):
+                    v = d = float("nan")
+            except Exception:
+                v = d = float("nan")
+        elif k == "fn:select":
+            take_a = (hash((seed, a.id)) & 1) == 0
+            v, d = val(a.args[1] if take_a else a.args[2])
+        else:
+            v = evalf(E.atom(a), seed=seed)
+            d = 0.0
+            acc = set()
+            for g in a.args:
+                _arg_atoms(g, acc)
+            for b in acc:
+                if atom(b)[1] != 0.0:
+                    d = float("nan")  # unknown derivative of an uninterpreted function
+                    break
+        memo[a] = (v, d)
+        return v, d
+
+    def val(x):
+        if not isinstance(x, E):
+            x = lift(x)
+        sv, sd = 0.0, 0.0
+        for m, c in x.t.items():
+            pv, pd = float(c), 0.0
+            for a, ex in m:
+                b, db = atom(a)
+                if isinstance(ex, int):
+                    xx, dxx = ex, 0.0
+                else:
+                    xx, dxx = val(ex)
+                try:
+                    t = b ** xx
+                    dt = (xx * b ** (xx - 1) * db if db else 0.0) + (t * math.log(b) * dxx if dxx else 0.0)
+                except Exception:
+                    return float("nan"), float("nan")
+                if isinstance(t, complex) or isinstance(dt, complex):
+                    return float("nan"), float("nan")
+                pv, pd = pv * t, pd * t + pv * dt
+            sv += pv
+            sd += pd
+        return sv, sd
 
     return val(lift(e))
 
